@@ -14,7 +14,8 @@ RULE = ("A case is one label list + engine options; Force.compute() is run and E
         "0..10, bounds absent/default/None/negative/fractional, all three algorithms, stub widths 0..5); tied targets with "
         "different widths; clusters of 2..200 mutually conflicting labels; single layers with both bounds that fit exactly / "
         "barely / barely not / grossly not; near-threshold families (pairs violating their gap by 1e-2..1e-4); multi-layer "
-        "layouts with narrow labels and small spacing (stub/stub, stub/label, label/label gaps; chain_dominates guard false). "
+        "layouts with narrow labels and small spacing (stub/stub, stub/label, label/label gaps; chain_dominates guard false); "
+        "bounds that are zero/negative/falsy; targets 1e9..1e12 beyond a bound; a narrow label between two stubs on one target. "
         "Non-trivial = some layer with >= 2 items in which an item is moved; distinct by input.")
 EXPLANATION = ("Theorems are about coq/Layout/Pava.v + Layer.v (exact PAVA with 1e10-weight walls, stable sort, half-even "
                "rounding) for ALL layer contents and options; the tie checks that removeOverlap.removeOverlap (through "
@@ -23,42 +24,60 @@ EXPLANATION = ("Theorems are about coq/Layout/Pava.v + Layer.v (exact PAVA with 
 
 def oracle(case, io):
     """The property statement on the implementation's own output: in every
-    layer, items are placed in the order of their targets and any two are at
-    least (w1+w2)/2 + spacing - 1 apart (spacing = 2 between two stubs)."""
+    layer, items are placed in the order of their targets and ANY two are at
+    least (w1+w2)/2 + spacing - 1 apart (spacing = 2 between two stubs).
+    Every pair of every layer is checked.  A failing pair is tagged as the
+    known finding stub-label-stub-gap only if it is non-adjacent, both items
+    are stubs, and some item strictly between them is a label narrower than
+    lineSpacing - 2*nodeSpacing; any other failure is reported untagged and
+    takes precedence."""
     if isinstance(io, dict) and "exc" in io:
         return "raised %s" % io["exc"]
     ns, ls, mn, mx = L.model_opts(case["py"]["opts"])
     tol = F(1, 10 ** 6)
+    known = None
     for k, layer in enumerate(io["layers"]):
         its = L.ordered(layer)
         n = len(its)
         for a, b in zip(its, its[1:]):
             if a[0] < b[0] and not a[3] <= b[3]:
                 return "layer %d: targets %r < %r but positions %r > %r" % (k, a[0], b[0], a[3], b[3])
-            if F(b[3]) - F(a[3]) < L.gap(a, b, ns) - 1 - tol:
-                return "layer %d: neighbours at %r and %r (widths %r, %r, stubs %r/%r) are closer than %s - 1" % (
-                    k, a[3], b[3], a[1], b[1], a[2], b[2], float(L.gap(a, b, ns)))
-        if n > 2 and L.guard_ok(its, ns):
-            # any two items (all pairs for small layers; near pairs and the two ends for large ones)
-            if n <= 60:
-                pairs = ((i, j) for i in range(n) for j in range(i + 2, n))
-            else:
-                pairs = [(i, j) for i in range(n) for j in range(i + 2, min(n, i + 5))]
-                pairs += [(0, j) for j in range(2, n)] + [(i, n - 1) for i in range(n - 2)]
-            for i, j in pairs:
-                a, b = its[i], its[j]
+        if n < 2:
+            continue
+        # positions are now known to be non-decreasing along `its`; a pair can only
+        # fail while the distance is below  w_i/2 + (largest half width) + (largest spacing) - 1
+        wmax = max(float(it[1]) for it in its)
+        spmax = max(float(ns), float(ls))
+        narrow = F(ls) - 2 * F(ns)
+        for i in range(n):
+            a = its[i]
+            reach = float(a[1]) / 2 + wmax / 2 + spmax - 1 + 1e-3
+            for j in range(i + 1, n):
+                b = its[j]
+                if b[3] - a[3] > reach:
+                    break
                 if F(b[3]) - F(a[3]) < L.gap(a, b, ns) - 1 - tol:
-                    return "layer %d: items %d and %d at %r and %r are closer than %s - 1" % (
-                        k, i, j, a[3], b[3], float(L.gap(a, b, ns)))
-    return None
+                    msg = "layer %d: items %d and %d at %r and %r (widths %r, %r, stubs %r/%r) are closer than %s - 1" % (
+                        k, i, j, a[3], b[3], a[1], b[1], a[2], b[2], float(L.gap(a, b, ns)))
+                    if j > i + 1 and a[2] and b[2] and any((not c[2]) and F(c[1]) < narrow for c in its[i + 1:j]):
+                        if known is None:
+                            known = L.tagged(L.STUB_GAP, msg + "; a label narrower than lineSpacing - 2*nodeSpacing = %s stands between the two stubs" % float(narrow))
+                    else:
+                        return msg
+    return known
+
+
+def matches_finding(finding, case, failure):
+    return L.matches(finding, failure, L.STUB_GAP)
 
 
 LEVEL_TEXT = ("Machine-checked Coq theorems for ALL layers (any number of items, any targets, widths >= 0, spacings >= 0, "
               "bounds present or absent, fitting or not): the exact PAVA positions keep every gap (pava_feasible), the "
               "rounded positions are in target order and any two items i<j are at least the sum of the gaps between them "
               "minus 1 apart (C01_order, C01_separation), hence at least their own pairwise gap minus 1 under "
-              "chain_dominates (C01_pairwise); on a Gallina model tied to removeOverlap/Force.compute by differential "
-              "execution on every run.")
+              "chain_dominates (C01_pairwise); without that guard the 'any two items' reading is refuted by a concrete layer "
+              "(C01_pairwise_unguarded_refuted: two stubs around a 0.25-wide label, known finding stub-label-stub-gap); on a "
+              "Gallina model tied to removeOverlap/Force.compute by differential execution on every run.")
 LEVEL_NOTE = ("Trusted: Coq kernel; extraction re-checked on a slice by vm_compute; the correspondence harness. Modelled, "
               "not verified: labella/removeOverlap.py and vpsc.py (the model is the exact optimum the solver approximates "
               "to ~1e-10; doubles modelled by rationals; disagreements inside the 1e-7 rounding band are counted, not "
